@@ -1,5 +1,5 @@
 // C19, unit "st_default": Sparse_rips_complex<double> filling a Gudhi::Simplex_tree<> (default options).
-#include "c19_common.h"
+#include "c19_extra.h"
 
 typedef Gudhi::Simplex_tree<> ST;
 
@@ -7,6 +7,9 @@ VH_CONFIG("grid", [](vh::Case& c) { c19::run_case<ST>(c, c19::G_GRID, false, tru
 VH_CONFIG("graphs", [](vh::Case& c) { c19::run_case<ST>(c, c19::G_GRAPHS, false, true); });
 VH_CONFIG("scales", [](vh::Case& c) { c19::run_case<ST>(c, c19::G_SCALES, false, true); });
 VH_CONFIG("generic", [](vh::Case& c) { c19::run_case<ST>(c, c19::G_GENERIC, false, true); });
+VH_CONFIG("rounded", [](vh::Case& c) { c19::run_case<ST>(c, c19::G_ROUNDED, false, true); });
 VH_CONFIG("validity", [](vh::Case& c) { c19::run_case<ST>(c, c19::G_ANY, true, true); });
 VH_CONFIG("large", [](vh::Case& c) { c19::run_case<ST>(c, c19::G_ANY, false, true, true); });
+VH_CONFIG("exact", [](vh::Case& c) { c19::run_exact<ST>(c); });
+VH_CONFIG("h0_large", [](vh::Case& c) { c19::run_h0_large<ST>(c); });
 VH_MAIN()
